@@ -56,11 +56,46 @@ def conflicting(a, b):
     return (pa is not None and pa == pb) or (ca is not None and ca == cb) or a["op"] == "delete" or b["op"] == "delete"
 
 
+def case_cost(case):
+    return 40 if case.get("max_preempt", 1) >= 2 else 1
+
+
+# 'holder, waiter, passer-by': H is parked inside its critical section, W (same identifier) runs until it
+# blocks, P (another identifier, same condition variable) runs to completion and notifies; then W gets
+# the chance to run BEFORE H continues - it must still be waiting.
+HWP = {
+    "object-pid": ([], {"op": "store", "pid": "p", "c": X}, {"op": "delete", "pid": "p"}, {"op": "store", "pid": "q", "c": Y}),
+    "reference-pid": ([], {"op": "tag", "pid": "p", "cid": {"of": X}}, {"op": "tag", "pid": "p", "cid": {"of": Y}},
+                      {"op": "tag", "pid": "q", "cid": {"of": Y}}),
+    "cid": ([{"op": "store", "pid": None, "c": X}], {"op": "tag", "pid": "p", "cid": {"of": X}},
+            {"op": "tag", "pid": "q", "cid": {"of": X}}, {"op": "tag", "pid": "r", "cid": {"of": Y}}),
+    "cid-delete": ([{"op": "store", "pid": "p", "c": X}, {"op": "store", "pid": "q", "c": X}, {"op": "store", "pid": "r", "c": Y}],
+                   {"op": "delete", "pid": "p"}, {"op": "delete", "pid": "q"}, {"op": "delete", "pid": "r"}),
+}
+
+
+def hwp_preemptions(a):
+    ub = sched.UNTIL_BLOCKED
+    return [(a, 0), (ub, 0), (0, 0), (ub, 0), (0, 0)]
+
+
 def enumerate_cases(tier):
+    holds = range(2, 40, 3) if tier == "quick" else range(1, 60)
+    for fam, (start, h, w, p) in HWP.items():
+        for a in holds:
+            yield dict(BASE, start_name="hwp:" + fam, start=start, calls=[h, w, p], mode="gen", order=[0, 1, 2],
+                       preemptions=[list(x) for x in hwp_preemptions(a)], family="holder-waiter-passer-by")
     for sname in STARTS:
         for a, b in itertools.combinations_with_replacement(range(len(MENU)), 2):
-            yield dict(BASE, start_name=sname, start=STARTS[sname], calls=[MENU[a], MENU[b]], mode="enum",
-                       max_preempt=2 if (tier == "thorough" and conflicting(MENU[a], MENU[b])) else 1)
+            two = tier == "thorough" and conflicting(MENU[a], MENU[b])
+            case = dict(BASE, start_name=sname, start=STARTS[sname], calls=[MENU[a], MENU[b]], mode="enum",
+                        max_preempt=2 if two else 1)
+            if two:   # split the quadratic enumeration into 16 independent slices
+                for first in (0, 1):
+                    for k in range(8):
+                        yield dict(case, firsts=[first], i_mod=[8, k])
+            else:
+                yield case
 
 
 @st.composite
@@ -114,7 +149,9 @@ def run_case(case, ctx):
     confl = any(conflicting(a, b) for a, b in itertools.combinations(calls, 2))
     if case["mode"] == "enum":
         n = 0
-        for order, pre, ex in conc.single_preemption_schedules(world, calls, max_preempt=case.get("max_preempt", 1)):
+        for order, pre, ex in conc.single_preemption_schedules(world, calls, max_preempt=case.get("max_preempt", 1),
+                                                                firsts=case.get("firsts", (0, 1)),
+                                                                i_mod=tuple(case.get("i_mod", (1, 0)))):
             ctx.count()
             n += 1
             judge(ctx, world, case, calls, order, pre, ex)
